@@ -55,6 +55,10 @@ scalar Any
 input Pt { x: Int! y: Int = 2 tags: [String!] c: Color self: Pt pts: [Pt] req: Int! = 7 any: Any }
 input One @oneOf { a: Int b: String }`
 
+// the same names with other contents: another enum value set, other defaults (nothing learnt about
+// one schema may be applied to another)
+var varsSchemaB = strings.NewReplacer("RED GREEN", "RED BLUE", "y: Int = 2", "y: Int = 5", "req: Int! = 7", "req: Int! = 8").Replace(varsSchema)
+
 var varLeafTypes = []string{"Int", "Float", "String", "Boolean", "ID", "Color", "Any", "Pt"}
 
 // every list/non-null pattern over a leaf up to the given list depth
@@ -128,6 +132,12 @@ func conformingValue(r *gen.Rng, t string, depth int) interface{} {
 			if r.Chance(1, 5) {
 				m["self"] = nil
 			}
+			if r.Chance(1, 5) {
+				m["req"] = gen.Pick(r, []interface{}{9, int64(10)}) // a value for the non-null field that has a default
+			}
+			if r.Chance(1, 6) {
+				m["y"] = nil // an explicit null for the nullable field that has a default
+			}
 		}
 		return m
 	}
@@ -137,7 +147,20 @@ func conformingValue(r *gen.Rng, t string, depth int) interface{} {
 // one injected defect (or none): returns the value and a label
 func defectiveValue(r *gen.Rng, t string) (interface{}, string) {
 	v := conformingValue(r, t, 2)
-	switch r.Intn(9) {
+	switch r.Intn(10) {
+	case 9:
+		// an explicit null where the field is non-null: with and without a default of the field
+		if m, ok := v.(map[string]interface{}); ok {
+			m[gen.Pick(r, []string{"req", "req", "x"})] = nil
+			return m, "explicit null for non-null field"
+		}
+		if l, ok := v.([]interface{}); ok && len(l) > 0 {
+			if m, ok := l[0].(map[string]interface{}); ok {
+				m["req"] = nil
+				return l, "explicit null for non-null field"
+			}
+		}
+		return v, "none"
 	case 0:
 		return nil, "null at top"
 	case 1:
@@ -354,12 +377,19 @@ func runC14(c *core.Ctx) {
 		cases = append(cases, mk(types, vals, present, defaults, label))
 	}
 	sdl := varsSchema + "\ndirective @tag(x: Any) on FIELD"
+	sdlB := varsSchemaB + "\ndirective @tag(x: Any) on FIELD"
+	sdlOf := func(i int) string {
+		if i%3 == 2 {
+			return sdlB
+		}
+		return sdl
+	}
 	labels := map[string]int64{}
 	var nOK, nErr, nInvalid int64
 	results := make([]string, len(cases))
 	c.Pool.ParFor(len(cases), func(w, i int) {
 		k := cases[i]
-		args := [][]byte{[]byte(k.query), []byte(k.vars), []byte(sdl)}
+		args := [][]byte{[]byte(k.query), []byte(k.vars), []byte(sdlOf(i))}
 		impl := c.Impl(w, "vars", args...)
 		results[i] = impl
 		if strings.HasPrefix(impl, "panic") {
@@ -373,9 +403,14 @@ func runC14(c *core.Ctx) {
 		c.Seen(true, []byte(k.query), []byte(k.vars))
 	})
 	// conformance of returned values (implementation alone)
-	s2, _ := loadImpl(sdl)
+	s2A, _ := loadImpl(sdl)
+	s2B, _ := loadImpl(sdlB)
 	_ = s
 	for i, k := range cases {
+		s2 := s2A
+		if sdlOf(i) == sdlB {
+			s2 = s2B
+		}
 		labels[k.label]++
 		switch {
 		case strings.HasPrefix(results[i], "ok"):
@@ -396,7 +431,7 @@ func runC14(c *core.Ctx) {
 					continue
 				}
 				if m := conformsProblem(s2, vd.Type, val, "$"+vd.Variable); m != "" &&
-					!c.Explained(0, "vars", results[i], []byte(k.query), []byte(k.vars), []byte(sdl)) {
+					!c.Explained(0, "vars", results[i], []byte(k.query), []byte(k.vars), []byte(sdlOf(i))) {
 					c.ReportOracle("coerced-values-do-not-conform", map[string]interface{}{"query": k.query, "variables": k.vars, "problem": m, "result": DumpGo(out)})
 				}
 			}
